@@ -225,6 +225,11 @@ def compare(res, out):
         m.append((name, f"edits: model {model_edits[:3]} implementation {res['edits'][:3]}"))
     if (out["applied"], out["skipped"]) != (res["applied"], res["skipped"]):
         m.append((name, f"counts: model {(out['applied'], out['skipped'])} implementation {(res['applied'], res['skipped'])}"))
+    elif out["clean_after"].replace("*", "").replace("_", "") == res["final"].replace("*", "").replace("_", "") and \
+            out["clean_after"] != res["final"]:
+        # same characters, different emphasis markers around inserted words: C12 speaks about the text "bold/italic markers
+        # aside"; which run an inserted word takes its emphasis from is C16's subject and compared there. Not a mismatch here.
+        pass
     elif out["clean_after"] != res["final"]:
         a, b = out["clean_after"], res["final"]
         k = next((j for j in range(min(len(a), len(b))) if a[j] != b[j]), min(len(a), len(b)))
